@@ -11,6 +11,8 @@
 //	       repository's packages and open descriptors after all behaviours (out + ".leak.json"); an unrecovered panic
 //	       kills this process, which the check sees as a non-zero exit status
 //
+//	burst -rounds R -n N -out f   n connections accepted back to back right before accept reports net.ErrClosed (see burst.go)
+//
 // The driver never judges a property; it only records (exit 3 = harness failure).
 package main
 
@@ -29,7 +31,7 @@ import (
 
 func main() {
 	if len(os.Args) < 2 {
-		hx.Fatal("usage: tcpconn replay ...")
+		hx.Fatal("usage: tcpconn replay|burst ...")
 	}
 	mode := os.Args[1]
 	fs := flag.NewFlagSet(mode, flag.ExitOnError)
@@ -44,6 +46,8 @@ func main() {
 	par := fs.Int("par", 8, "behaviours executed concurrently")
 	prom := fs.Bool("prom", false, "also report to the real Prometheus collectors")
 	ownWaits := fs.Bool("own-waits", false, "wait only for observations of the acting connection")
+	rounds := fs.Int("rounds", 30, "burst: rounds")
+	burstN := fs.Int("n", 3, "burst: connections pending in the backlog when the listener is closed")
 	leak := fs.Bool("leak", false, "C18 accounting: panics, goroutines, descriptors")
 	nkeys := fs.Int("nkeys", 0, "key list size (0 = seed-chosen from 1,3,100)")
 	cipher := fs.String("cipher", "", "force one cipher for all keys")
@@ -125,6 +129,8 @@ func main() {
 			}
 			hx.WriteJSON(*out+".prom.json", map[string]any{"gathered": pm.gather(), "recorded": recordedTotals(all)})
 		}
+	case "burst":
+		runBurst(*rounds, *burstN, *seed, *out)
 	default:
 		hx.Fatal("unknown mode %s", mode)
 	}
